@@ -617,7 +617,7 @@ pub struct SixtyCycleMonth {
 impl Tyme for SixtyCycleMonth {
   fn next(&self, n: isize) -> Self {
     SixtyCycleMonth {
-      year: SixtyCycleYear::from_year((self.year.get_year() * 12 + self.get_index_in_year() as isize + n) / 12),
+      year: SixtyCycleYear::from_year((self.year.get_year() * 12 + self.get_index_in_year() as isize + n).div_euclid(12)),
       month: self.month.next(n),
     }
   }
